@@ -319,6 +319,8 @@ def bi_cast(ex: Exec, node: ast.Call) -> SV:
 
 def bi_len(ex: Exec, node: ast.Call) -> SV:
     v = ex.eval(node.args[0])
+    if v.ty.kind == "union" and ex.spec:
+        v = ex.strip_none(v)
     k = v.ty.kind
     if k in ("list", "tuple", "dict"):
         return sv_int(z3.Length(ex.seq(v)))
